@@ -4120,6 +4120,12 @@ impl AstNode for ConditionalVariableAssignmentSyntax {
         kind: NodeKind::ConditionalVariableAssignment,
         items: &[
             LayoutItem {
+                optional: true,
+                repeated: false,
+                name: "label",
+                kind: LayoutItemKind::Node(NodeKind::Label),
+            },
+            LayoutItem {
                 optional: false,
                 repeated: false,
                 name: "target",
@@ -4156,6 +4162,9 @@ impl AstNode for ConditionalVariableAssignmentSyntax {
     }
 }
 impl ConditionalVariableAssignmentSyntax {
+    pub fn label(&self) -> Option<LabelSyntax> {
+        self.0.children().filter_map(LabelSyntax::cast).nth(0)
+    }
     pub fn target(&self) -> Option<TargetSyntax> {
         self.0.children().filter_map(TargetSyntax::cast).nth(0)
     }
@@ -4184,6 +4193,12 @@ impl AstNode for ConditionalWaveformAssignmentSyntax {
     const META: &'static Layout = &Layout::Sequence(Sequence {
         kind: NodeKind::ConditionalWaveformAssignment,
         items: &[
+            LayoutItem {
+                optional: true,
+                repeated: false,
+                name: "label",
+                kind: LayoutItemKind::Node(NodeKind::Label),
+            },
             LayoutItem {
                 optional: false,
                 repeated: false,
@@ -4230,6 +4245,9 @@ impl AstNode for ConditionalWaveformAssignmentSyntax {
     }
 }
 impl ConditionalWaveformAssignmentSyntax {
+    pub fn label(&self) -> Option<LabelSyntax> {
+        self.0.children().filter_map(LabelSyntax::cast).nth(0)
+    }
     pub fn target(&self) -> Option<TargetSyntax> {
         self.0.children().filter_map(TargetSyntax::cast).nth(0)
     }
